@@ -76,6 +76,21 @@ func (h *c07h) extraJobs(root *rng, tier string, jobs *[]*c07job) {
 			}
 		}
 	}
+	nE := 150
+	if tier == "thorough" {
+		nE = 4000
+	}
+	for k := 0; k < nE; k++ {
+		e := h.genE(root.fork(), "")
+		add(func(j *c07job) { h.runE(j, e, "") })
+	}
+	for _, region := range []string{"embedded-unwrapped-pointer", "embedded-promoted-stub", "embedded-first-by-value"} {
+		for k := 0; k < nR; k++ {
+			region := region
+			e := h.genE(root.fork(), region)
+			add(func(j *c07job) { h.runE(j, e, region) })
+		}
+	}
 	nI := 2
 	if tier == "thorough" {
 		nI = 25
